@@ -245,14 +245,14 @@ Definition data_rec_ok (ws : list N) (r : rec) : Prop :=
   rec_is_data r = true /\ wf_record (rec_els r) = true /\ widths_of (rec_els r) = ws.
 
 Lemma bufs_of_recs rs : forall bss,
-  Forall (fun r => rec_is_data r = true /\ wf_record (rec_els r) = true) rs ->
+  Forall (fun r => rec_is_data r = true /\ wf_record (rec_els r) = true /\ good_rec r) rs ->
   Forall2 (fun els bs => enc_all els = Some bs) (map rec_els rs) bss ->
   map buf_of rs = bss.
 Proof.
   induction rs as [|r rs IH]; intros bss F F2; inversion F2; subst; [reflexivity|].
-  inversion F as [|? ? [D W] F']; subst. cbn [map]. f_equal; [|now apply IH].
+  inversion F as [|? ? (D & W & G) F']; subst. cbn [map]. f_equal; [|now apply IH].
   destruct r as [tid fc els buf m|tid fc els len]; [discriminate|]. cbn [rec_els] in *.
-  unfold buf_of, rec_buffer. cbn [rec_buffer_e]. rewrite (get_buffer_spec els y W H1). reflexivity.
+  unfold buf_of, rec_buffer. rewrite (good_rec_buffer_e _ _ _ _ G). rewrite (get_buffer_spec els y W H1). reflexivity.
 Qed.
 
 Lemma concat_len_ge (bss : list (list byte)) :
@@ -268,12 +268,13 @@ Definition expected_data (s : setb) : option (list (list (list byte))) :=
 
 (* the body of a data set, read by the independent parser with the template's widths *)
 Theorem data_body_parse s ws :
+  (forall r, In r (s_recs s) -> good_rec r) ->
   Forall (data_rec_ok ws) (s_recs s) ->
   (forall r, In r (s_recs s) -> record_len (rec_els r) <> 0) ->
   exists d, expected_data s = Some d /\
             parse_drecs (S (length (body_of s))) ws (body_of s) = Some d.
 Proof.
-  intros F NZ.
+  intros HG F NZ.
   assert (Fl : Forall (drec_ok ws) (map rec_els (s_recs s))).
   { apply Forall_forall. intros els Hin. apply in_map_iff in Hin as (r & <- & Hr).
     rewrite Forall_forall in F. destruct (F r Hr) as (_ & W & Hw). repeat split; auto. }
@@ -282,7 +283,7 @@ Proof.
   destruct Ex as [bss F2].
   assert (B : body_of s = List.concat bss).
   { unfold body_of. f_equal. apply bufs_of_recs; [|exact F2].
-    apply Forall_forall. intros r Hr. rewrite Forall_forall in F. destruct (F r Hr) as (D & W & _). auto. }
+    apply Forall_forall. intros r Hr. rewrite Forall_forall in F. destruct (F r Hr) as (D & W & _). repeat split; auto. }
   assert (NE : Forall (fun b => b <> []) bss).
   { clear B. revert Fl F2. generalize (map rec_els (s_recs s)). intros l Fl F2.
     induction F2; constructor.
@@ -304,6 +305,32 @@ Qed.
 
 (* C02, data sets: every transmitted data set whose records are well-typed records of one
    template parses, with that template's widths, to the RFC's octets of every value *)
+Lemma Inv_good_recs s : Inv s -> forall r, In r (s_recs s) -> good_rec r.
+Proof.
+  intros (_ & _ & G) r Hr. rewrite s_recs_rev in Hr. rewrite Forall_forall in G. apply G. now apply in_rev.
+Qed.
+
+(* for any set state whose data records still have the length of their current values ([Inv]) *)
+Theorem wellformed_data_set_s widths st s t bytes ws :
+  Inv s -> st_wf st -> r_wire (send_set cur st s t) = Some bytes ->
+  256 <= hdr_id s -> widths (hdr_id s) = Some ws ->
+  Forall (data_rec_ok ws) (s_recs s) ->
+  (forall r, In r (s_recs s) -> record_len (rec_els r) <> 0) ->
+  exists d, expected_data s = Some d /\
+  rfc_parse widths bytes =
+    Some (mkWM 10 (blen bytes) (t mod 2 ^ 32) (seq_next (x_seq st) s mod 2 ^ 32) (x_obs st mod 2 ^ 32)
+               (hdr_id s) (blen bytes - 16) (WData d)).
+Proof.
+  intros HI W Hw Hid Hws F NZ.
+  destruct (wellformed_frame widths st s t bytes HI W Hw) as (P & L).
+  destruct (data_body_parse s ws (Inv_good_recs s HI) F NZ) as (d & Ed & Pd).
+  exists d. split; [exact Ed|]. rewrite P. unfold after_frame.
+  destruct (N.eqb_spec (hdr_id s) 2); [lia|].
+  destruct (N.leb_spec 256 (hdr_id s)); [|lia].
+  rewrite Hws. cbn [obnd]. rewrite Pd. cbn [obnd]. rewrite L.
+  f_equal. f_equal; lia.
+Qed.
+
 Theorem wellformed_data_set widths st ops t bytes ws :
   let s := set_of ops in
   st_wf st -> r_wire (send_set cur st s t) = Some bytes ->
@@ -314,15 +341,20 @@ Theorem wellformed_data_set widths st ops t bytes ws :
   rfc_parse widths bytes =
     Some (mkWM 10 (blen bytes) (t mod 2 ^ 32) (seq_next (x_seq st) s mod 2 ^ 32) (x_obs st mod 2 ^ 32)
                (hdr_id s) (blen bytes - 16) (WData d)).
+Proof. intros s. apply wellformed_data_set_s. apply Inv_set_of. Qed.
+
+Corollary wellformed_data_set_tpl_s widths st s t bytes ws :
+  Inv s -> st_wf st -> r_wire (send_set cur st s t) = Some bytes ->
+  256 <= hdr_id s -> widths (hdr_id s) = Some ws -> Exists (fun w => w <> 0) ws ->
+  Forall (data_rec_ok ws) (s_recs s) ->
+  exists d, expected_data s = Some d /\
+  rfc_parse widths bytes =
+    Some (mkWM 10 (blen bytes) (t mod 2 ^ 32) (seq_next (x_seq st) s mod 2 ^ 32) (x_obs st mod 2 ^ 32)
+               (hdr_id s) (blen bytes - 16) (WData d)).
 Proof.
-  intros s W Hw Hid Hws F NZ.
-  destruct (wellformed_frame widths st s t bytes (Inv_set_of ops) W Hw) as (P & L).
-  destruct (data_body_parse s ws F NZ) as (d & Ed & Pd).
-  exists d. split; [exact Ed|]. rewrite P. unfold after_frame.
-  destruct (N.eqb_spec (hdr_id s) 2); [lia|].
-  destruct (N.leb_spec 256 (hdr_id s)); [|lia].
-  rewrite Hws. cbn [obnd]. rewrite Pd. cbn [obnd]. rewrite L.
-  f_equal. f_equal; lia.
+  intros HI W Hw Hid Hws X F. apply (wellformed_data_set_s widths st s t bytes ws); auto.
+  intros r Hr. rewrite Forall_forall in F. destruct (F r Hr) as (_ & _ & E).
+  apply record_len_pos. now rewrite E.
 Qed.
 
 (* the same with the non-emptiness stated on the template: some field has a non-zero width *)
